@@ -1,5 +1,6 @@
 (* Properties/C12.v — boolean flags.  Only statements closed by `exact`, each followed by Print Assumptions. *)
 From SPV Require Import Base.Str Model.BoolFlag Model.BoolFlagSpec Gen.FactsBool Proofs.BoolFlagProofs.
+From SPV Require Import Model.MiniPy Gen.FactsNegStrSrc Proofs.MiniPyNegStr.
 
 (* The model (with the vocabulary, negative prefix and __call__ table regenerated from the source) meets the
    spec for EVERY sequence of occurrences, every default, every set of negative option strings. *)
@@ -51,6 +52,39 @@ Theorem C12_negative_prefixed_differs : forall kn pw path n,
 Proof. exact negative_prefixed_differs. Qed.
 Print Assumptions C12_negative_prefixed_differs.
 
+(* The tie to the code for the negative option strings is a THEOREM, not a sample: `neg_strings_src` is the ast of the
+   statements of BooleanOptionalAction.__init__ that compute self.negative_option_strings, dumped by
+   harness/translate/NegStrSrc.py on every run (a syntax-to-syntax translation into the MiniPy fragment of Model/MiniPy.v);
+   run by the MiniPy interpreter on any negative prefix, any explicit negative option or none, any conflict prefix that is
+   empty or ends with "." (what the constructor asserts) and any list of option strings, it returns exactly what the
+   functional model says: the list of negative option strings, or NotImplementedError for an option string without a
+   leading dash. *)
+Theorem C12_source_is_model : forall np nopt cp os,
+  cp_ok cp = true ->
+  run_src np nopt cp os =
+  match negative_option_strings np nopt cp os with
+  | Some l => Ok (VL (map VS l))
+  | None => Err (Raise "NotImplementedError")
+  end.
+Proof. exact src_is_model. Qed.
+Print Assumptions C12_source_is_model.
+
+(* without an explicit negative option the conflict prefix plays no role *)
+Theorem C12_source_is_model_generated : forall np cp os,
+  run_src np None cp os =
+  match neg_strings np os [] with
+  | Some l => Ok (VL (map VS l))
+  | None => Err (Raise "NotImplementedError")
+  end.
+Proof. exact src_is_model_generated. Qed.
+Print Assumptions C12_source_is_model_generated.
+
+(* the hypothesis above is exactly the constructor's assertion *)
+Theorem C12_source_asserts_conflict_prefix : forall np n cp os,
+  cp_ok cp = false -> run_src np (Some n) cp os = Err (Raise "AssertionError").
+Proof. exact src_asserts_conflict_prefix. Qed.
+Print Assumptions C12_source_asserts_conflict_prefix.
+
 (* non-vacuity: a concrete sequence inside the theorem's domain, and what the model answers on it *)
 Example C12_nonvacuous :
   all_consistent ["--a.noflag"] [PosVal "TRUE"; NegBare; PosVal "0"; PosBare] ["--a.flag"; "--a.noflag"; "--a.flag"; "--a.flag"] = true
@@ -58,3 +92,4 @@ Example C12_nonvacuous :
        (zip_occ [PosVal "TRUE"; NegBare; PosVal "0"; PosBare] ["--a.flag"; "--a.noflag"; "--a.flag"; "--a.flag"]) = Ok true
   /\ option_map fst (neg_of_option DEFAULT_NEGATIVE_PREFIX "--a.b.flag") = Some "--a.b.noflag".
 Proof. vm_compute. repeat split; reflexivity. Qed.
+Print Assumptions C12_nonvacuous.
